@@ -321,6 +321,8 @@ class TreeGen:
                 a = self.recopy(a)
                 if rng.random() < 0.45:
                     a = self.class_variant(a)
+                elif rng.random() < 0.5:
+                    a = self.respell(a)
             return a
         kind = rng.choice(self.classes)
         n_args = 1 if kind == "Not" else 2 if kind == "Imply" else rng.randint(1, self.max_arity)
@@ -383,6 +385,20 @@ class TreeGen:
         elif c == "Xor": b.update(c="ExactlyOne")
         elif c == "ExactlyOne": b.update(c="Xor")
         return b
+
+    def respell(self, a):
+        """the same definition with its boolean leaves spelled the other way: id strings as variable objects and back"""
+        def go(x):
+            if isinstance(x, dict):
+                if x.get("c") == "str" and self.rng.random() < 0.6:
+                    return {"c": "var", "id": x["id"], "lo": 0, "hi": 1}
+                if x.get("c") == "var" and (x.get("lo"), x.get("hi")) == (0, 1) and not x.get("$sub") and self.rng.random() < 0.6:
+                    return {"c": "str", "id": x["id"]}
+                return {k: go(v) for k, v in x.items()}
+            if isinstance(x, list):
+                return [go(v) for v in x]
+            return x
+        return go(a)
 
     def recopy(self, a):
         """structurally identical copy with fresh sharing keys (distinct Python objects, same ids)"""
@@ -572,29 +588,37 @@ def np_scalar(rng, v):
     return (fits[0] if rng.random() < 0.6 else rng.choice(fits))(v)
 
 
-def render_value(rng, lo, hi):
-    """one of the three value forms the API accepts"""
+def render_value(rng, lo, hi, basic=False):
+    """one of the value forms the API accepts: int / numpy integer scalar (constants), (lo, hi) tuple, [lo, hi] list,
+    numpy array [lo, hi], puan.Bounds"""
+    import numpy
     r = rng.random()
     if lo == hi and r < 0.15:
         return np_scalar(rng, lo)
-    if lo == hi and r < 0.6:
+    if lo == hi and r < 0.55:
         return lo
-    if r < 0.8:
+    if r < 0.72 or (basic and r < 0.85):
         return (lo, hi)
+    if r < 0.8:
+        return [lo, hi]
+    if r < 0.85:
+        return numpy.array([lo, hi])
     return puan.Bounds(lo, hi)
 
 
-def render_interp(rng, I):
+def render_interp(rng, I, basic=False):
     """the interpretation as a user hands it over: in 45% of the cases in ONE form throughout (plain ints wherever the value
     is a constant — what most callers write —, tuples only, Bounds only), otherwise each value in a form of its own"""
     r = rng.random()
     if r < 0.25:
         return {k: (lo if lo == hi else (lo, hi)) for k, (lo, hi) in I.items()}
-    if r < 0.35:
+    if r < 0.32:
         return {k: (lo, hi) for k, (lo, hi) in I.items()}
+    if r < 0.35 and not basic:
+        return {k: [lo, hi] for k, (lo, hi) in I.items()}
     if r < 0.45:
         return {k: puan.Bounds(lo, hi) for k, (lo, hi) in I.items()}
-    return {k: render_value(rng, lo, hi) for k, (lo, hi) in I.items()}
+    return {k: render_value(rng, lo, hi, basic) for k, (lo, hi) in I.items()}
 
 
 def interp_json(I):
